@@ -68,7 +68,7 @@ Proof.
         assert (k1 = k) by (apply ostr_k_inj; congruence). subst k1.
         assert (ob1 = ob) by congruence. subst ob1.
         exists k, ob. split; [reflexivity|]. split; [rewrite Hobj; exact Hob|]. split; [exact Hk1|].
-        destruct F as [f1 f2 f3 f4 f5 f6 f7 f8 f9].
+        destruct F as [f1 f2 f3 f4 f5 f6 f7 f8 f10 f9].
         assert (Hfl: flagP evl' en' sd k) by (left; rewrite Hsame; unfold x'; cbn [w_chg s_chg]; exact Hts).
         constructor; rewrite ?Hsame, ?Hoth, ?Hign; unfold x'; cbn [w_chg w_ex s_ex s_path s_spath s_hash s_shash s_oid s_chg].
         -- unfold ev_ex. destruct (s_ex (gs en sd)), b; simpl; intros Ht; try discriminate; auto.
@@ -82,6 +82,7 @@ Proof.
            split; [exact P1|]. split; [exact P2|]. split; [exact P3|]. split; [exact P4|].
            intros Ho2. destruct (P5 Ho2) as (Q1 & Q2 & Q3 & Q4). split; [exact Q1|]. split; [exact Q2|]. split; [|exact Q4].
            destruct Q3 as [Q3|(Q3 & _)]; [left; exact Q3|right; split; [exact Q3|exact Hfl]].
+        -- exact f10.
         -- intros Hd Hcs. destruct (f9 Hd Hcs) as (P1 & P2 & P3 & P4 & P5 & P6 & (k' & ob' & R1 & R2 & R3 & R4)).
            split; [exact P1|]. split.
            ++ rewrite P2. unfold ev_ex. destruct b; [reflexivity|]. rewrite (Hdead eq_refl) in P1. discriminate.
@@ -94,8 +95,8 @@ Proof.
       assert (Hpd1: pd evl (negb sd) k1 = true -> pd evl' (negb sd) k1 = true) by (apply Hpd; left; destruct sd; discriminate).
       assert (Hfl: flagP evl en (negb sd) k1 -> flagP evl' en' (negb sd) k1).
       { intros [X|X]; [left; rewrite Hoth; exact X|right; apply Hpd1; exact X]. }
-      destruct F as [f1 f2 f3 f4 f5 f6 f7 f8 f9].
-      rewrite negb_inv in f6, f7, f8, f9.
+      destruct F as [f1 f2 f3 f4 f5 f6 f7 f8 f10 f9].
+      rewrite negb_inv in f6, f7, f8, f10, f9.
       constructor; rewrite ?Hoth, ?Hign, ?negb_inv, ?Hsame; unfold x'; cbn [w_chg w_ex s_ex s_path s_spath s_hash s_shash s_oid s_chg].
       * exact f1.
       * destruct f2 as [X|[X|X]]; [left; auto|right; left; rewrite Hx; lia|right; right; exact X].
@@ -108,6 +109,7 @@ Proof.
         split; [exact P1|]. split; [exact P2|]. split; [exact P3|]. split; [exact P4|].
         intros Ho2. destruct (P5 Ho2) as (Q1 & Q2 & Q3 & Q4). split; [exact Q1|]. split; [exact Q2|]. split; [|exact Q4].
         destruct Q3 as [Q3|(Q3 & Q5)]; [left; exact Q3|right; split; [exact Q3|auto]].
+      * exact f10.
       * intros Hd Hcs. destruct (f9 Hd Hcs) as (P1 & P2 & P3 & P4 & P5 & P6 & (k' & ob' & R1 & R2 & R3 & R4)).
         repeat (split; [assumption|]). exists k', ob'. rewrite Hobj. auto.
 Qed.
@@ -350,6 +352,7 @@ Proof.
               assert (ob2 = ob) by congruence. subst ob2.
               split; [left; reflexivity|]. split; [left; reflexivity|]. split; [exists r; exact Hcs2|]. split; [intros Hx; exfalso; apply Hx; reflexivity|].
               intros Hx. exfalso. apply Hx. reflexivity.
+           ++ intros _ cs Hcs. split; [intros _; split; reflexivity|intros Hx; exfalso; apply Hx; reflexivity].
            ++ intros _ Hg. exfalso.
               assert (Hlt: (k < length (ProvModel.p_heap (prov_of w sd)))%nat) by (apply nth_error_Some; unfold obj_at in Hob; congruence).
               destruct (i_cove _ _ _ I sd k Hk Hlt Hg) as (x & xn & Hxn & Hox). apply (Hnone x xn Hxn Hox).
